@@ -375,6 +375,7 @@ func (ex *Exec) runPath(fn *ssa.Function, prefix []int) (res *PathResult, pendin
 	res.Known = ex.known
 	res.Events = ex.events
 	if res.Outcome == "DEAD" || res.Outcome == "ABORT" {
+		res.CEs = ex.ces
 		return res, ex.pending
 	}
 	// witness: one model of the final path condition + predicted observables
